@@ -138,6 +138,8 @@ def view_mismatch(got: View, want: View, path: str = "") -> Optional[Tuple[str, 
     if got.kind != want.kind:
         return "kind", f"{path}kind {got.kind} != {want.kind}"
     if got.kind == "Spec":
+        if got.name != want.name:
+            return "name", f"{path}name {got.name!r} != {want.name!r}"
         if set(got.children) != set(want.children):
             return "children", f"{path}children {sorted(got.children)} != {sorted(want.children)}"
         for k in want.children:
